@@ -304,7 +304,7 @@ def main(argv=None):
     unreplayed = cand[max_replays:]
 
     # ---------------- witness validation (symbolic result at a model vs real float run)
-    nwit = 6 if tier == 'quick' else 16
+    nwit = int(os.environ.get('VERIF_NWIT') or (6 if tier == 'quick' else 16))      # VERIF_NWIT: replay more witnesses (machinery self-test)
     step = max(1, len(witnesses) // nwit) if witnesses else 1
     chosen = witnesses[::step][:nwit]
     validated, wit_bad = 0, []
